@@ -301,6 +301,54 @@ def tetrad_blocks(tier):
     return blocks
 
 
+def fluid_tetrad_blocks(tier):
+    """(d') fluid-adapted tetrad: g(e_a, e_b) = eta_ab for a moving fluid (slice: committed metric value and shift,
+    velocity along a committed gamma-unit direction with rational speed parameter p, free lapse).  Gram-Schmidt norms
+    whose non-vanishing the solver can neither refute nor realise are recorded assumptions."""
+    import sympy as sp
+    from aurel.core import AurelCore
+    blocks = []
+    with patched():
+        gvals = gr.DESIGNED_GAMMA[0]
+        ga = np.empty((3, 3, 1, 1, 1), dtype=object)
+        for i in range(3):
+            for j in range(3):
+                ga[i, j, 0, 0, 0] = SymReal(tm.const(gvals[(min(i, j), max(i, j))]))
+        al = symarray('al', ())
+        p = sym('p')
+        L = sp.Matrix([[4, 0, 0], [1, 4, 0], [2, -1, 4]])           # gamma = L L^T
+        d = L.T.inv() * sp.Matrix([sp.Rational(3, 5), sp.Rational(4, 5), 0])
+        speed = 2 * p / (1 + p * p)
+        W = (1 + p * p) / (1 - p * p)
+        v = [speed * F(int(d[i].p), int(d[i].q)) for i in range(3)]
+        be = np.empty((3, 1, 1, 1), dtype=object)
+        for i, bv in enumerate([F(1, 3), F(-1, 2), F(1, 5)]):
+            be[i, 0, 0, 0] = SymReal(tm.const(bv))
+        pre = [tm.lt(tm.ZERO, al[0, 0, 0].t), tm.lt(tm.const(-1), p.t), tm.lt(p.t, tm.ONE)]
+        rel = AurelCore(UninterpretedFD(), verbose=False, tetrad='fluid')
+        rel.data.update(alpha=al, betaup3=be, gammadown3=ga, w_lorentz=gr.grid(W), velx=gr.grid(v[0]), vely=gr.grid(v[1]),
+                        velz=gr.grid(v[2]))
+        rel.freeze_data()
+        c = Ctx(pre=pre, fork=False, decide_timeout=20, assume_undecided=True)
+        obs, hunt = [], []
+        with use_ctx(c):
+            e = rel.tetrad_base()
+            g4 = E(rel['gdown4'])
+            pre2 = pre + list(c.pc)
+            for a in range(4):
+                for b in range(a, 4):
+                    ip = sum(g4[m, n] * E(e[a])[m] * E(e[b])[n] for m in range(4) for n in range(4))
+                    ob = Ob(f'fluid tetrad <e{a},e{b}>', ip, (-1 if a == 0 else 1) if a == b else 0, pre2,
+                            group='fluid-adapted tetrad orthonormal for g (slice, moving fluid)')
+                    (obs if (a == 0 or (a, b) == (1, 1)) else hunt).append(ob)
+
+        def sampler(rng):
+            return {'p': F(rng.choice([-5, -3, -1, 1, 2, 4, 6]), 8), 'al': F(rng.randint(4, 16), 8)}
+        blocks.append(dict(name='tetrad-fluid', obs=obs, hunt=hunt, ctx=c, pre=pre2, run=None, sampler=sampler,
+                           assumed=len(c.assumed)))
+    return blocks
+
+
 def main(report, tier, seed, workers, calibrate=False):
     orientation = 1
     report.bounds = dict(grid='1x1x1', parts=['(a2) E/B assembly on free trace-free E,B', '(a3) Riemann-branch formula on free '
@@ -316,6 +364,7 @@ def main(report, tier, seed, workers, calibrate=False):
     with FuncTrace() as ft:
         blocks = build(tier)
         blocks += tetrad_blocks(tier)
+        blocks += fluid_tetrad_blocks(tier)
     report.functions |= ft.seen
     report.extra['source_sha1'] = source_digest(FILES)
     to = 60 if tier == 'quick' else 400
@@ -335,6 +384,10 @@ def main(report, tier, seed, workers, calibrate=False):
         if either:
             orientation = sign_either(report, either, rungs, blk, workers, seed, calibrate)
             report.extra['levi_civita_orientation_accepted'] = orientation
+        if blk.get('hunt'):
+            hunt_only(report, blk, workers, seed)
+        if blk.get('assumed'):
+            report.assumptions.append(f"{blk['name']}: {blk['assumed']} Gram-Schmidt norm(s) assumed non-zero (solver could neither refute nor realise a zero)")
         report.extra.setdefault('branch_decisions', {})[blk['name']] = blk['ctx'].decision_queries
     # (a1) with the orientation fixed by the assembly check
     calib = load_calib(PID)
@@ -367,6 +420,29 @@ def main(report, tier, seed, workers, calibrate=False):
         report.vacuity.append(dict(name=w.name, expect='sat', got=r['verdict']))
     pick = [ob for ob in blocks[0]['obs']][5]
     witness_sat(report, pick, 'Weyl component + 1 (wrong)')
+
+
+def hunt_only(report, blk, workers, seed):
+    """obligations that no rung settles on the unchanged tree: bug hunting only (a solver-confirmed counterexample is
+    a violation, anything else is recorded as not claimed)."""
+    import random
+    from symx.harness import solve_ladder
+    obs = blk['hunt']
+    solve_ladder(obs, [dict(name='full', envs=[None], timeout=20)], sampler=blk['sampler'], rng=random.Random(seed), workers=workers)
+    unsettled = []
+    for o in obs:
+        r = o.result
+        if r['verdict'] == 'sat':
+            from .common import handle_sat
+            report.obs.append(dict(name=o.name, verdict='sat', seconds=r['seconds'], backend='z3old', sha=r['sha'], group=o.group,
+                                   trivial=False, kind='identity', detail=r['rung']))
+            handle_sat(report, None, o)
+        elif r['verdict'] == 'unsat':
+            report.obs.append(dict(name=o.name, verdict='unsat', seconds=r['seconds'], backend='z3old', sha=r['sha'], group=o.group,
+                                   trivial=False, kind='identity', detail=r['rung']))
+        else:
+            unsettled.append(o.name)
+    report.extra.setdefault('hunt_only_unsettled', []).extend(unsettled)
 
 
 def sign_either(report, obs, rungs, blk, workers, seed, calibrate):
@@ -402,7 +478,10 @@ def sign_either(report, obs, rungs, blk, workers, seed, calibrate):
 def replay_payload(payload):
     from .common import model_from_json
     from symx.harness import eval_terms
-    blocks = build('quick') + tetrad_blocks('quick') + eb_blocks('thorough', int(payload.get('orientation', 1))) + invariants_blocks('thorough')
+    fl = fluid_tetrad_blocks('quick')
+    for b_ in fl:
+        b_['obs'] = b_['obs'] + b_['hunt']
+    blocks = build('quick') + tetrad_blocks('quick') + fl + eb_blocks('thorough', int(payload.get('orientation', 1))) + invariants_blocks('thorough')
     model = model_from_json(payload['model'])
     for blk in blocks:
         for ob in blk['obs']:
